@@ -29,7 +29,7 @@ var ops = []struct{ name, src string }{
 	{"lt", "$a < $b"}, {"le", "$a <= $b"}, {"eq", "$a == $b"}, {"ne", "$a != $b"}, {"gt", "$a > $b"}, {"ge", "$a >= $b"},
 	{"srt", "[$a, $b] | sort == [$a, $b]"}, {"idx", "[$a] | index($b) != null"}, {"unq", "[$a, $b] | unique | length"},
 }
-var unops = []struct{ name, src string }{{"neg", "-$a"}, {"abs", "$a | abs"}}
+var unops = []struct{ name, src string }{{"neg", "-$a"}, {"abs", "$a | abs"}, {"len", "$a | length"}}
 
 func compile(src string, vars ...string) *gojq.Code {
 	q, err := gojq.Parse(src)
@@ -189,7 +189,11 @@ func main() {
 			}
 			for _, ca := range common.Carriers(p.a) {
 				for _, cb := range common.Carriers(p.b) {
+					ka, kb := fmt.Sprint(ca), fmt.Sprint(cb)
 					got, _ := run1(codes[o.name], ca, cb)
+					if fmt.Sprint(ca) != ka || fmt.Sprint(cb) != kb {
+						ctx.Violate(fmt.Sprintf("operand-changed:%s:%s:%s", o.name, ka, kb), fmt.Sprintf("%s changed an operand: (%s, %s) became (%v, %v)", o.name, ka, kb, ca, cb), map[string]any{"op": o.src, "a": ka, "b": kb})
+					}
 					orc.Cases++
 					orc.Distribution[o.name]++
 					if want != "" && got != want {
@@ -214,12 +218,19 @@ func main() {
 			impl = append(impl, res)
 			if x, ok := toBig(p.a); ok {
 				want := new(big.Int).Neg(x)
-				if o.name == "abs" {
+				if o.name == "abs" || o.name == "len" {
 					want = new(big.Int).Abs(x)
 				}
 				for _, ca := range common.Carriers(p.a) {
+					keep := fmt.Sprint(ca)
 					got, v := run1(codes[o.name], ca)
 					orc.Cases++
+					// the operand is a value: computing with it must not change it (a *big.Int is a
+					// mutable Go object; math/big methods write their receiver)
+					if now := fmt.Sprint(ca); now != keep {
+						ctx.Violate(fmt.Sprintf("operand-changed:%s:%s", o.name, common.Canon(p.a)), fmt.Sprintf("%s changed its operand: %s (%T) became %s", o.name, keep, ca, now), map[string]any{"op": o.src, "a": keep, "carrier": fmt.Sprintf("%T", ca), "operand_after": now,
+							"cmd": fmt.Sprintf("gojq -nc '%s | [(%s), .]'", keep, strings.ReplaceAll(o.src, "$a", "."))})
+					}
 					// json.Number carriers keep the literal: compare numerically
 					if n, ok := v.(json.Number); ok {
 						got = "ok " + common.Canon(common.NormalizeNumber(n))
